@@ -50,6 +50,12 @@ def run(prog, rep, tier):
         it["rule"] = "R15.2"
         rep.items.append(it)
         rep.counts["R15.2"] = rep.counts.get("R15.2", 0) + 1
+    # prop(y, n) / p(y, n) / y[level] in a response are formulae's own helpers only while built-in names are resolved before
+    # anything the caller defines (C11's R11.1 / R11.2, reported here as R15.8)
+    from . import C11
+    from ..core import reuse_rule
+    reuse_rule(rep, C11.r11_2, "R15.8", prog)
+    reuse_rule(rep, C11.r11_1, "R15.8", prog)
     from . import shared
     # "the response must be a single term" counts terms after `+` has merged equal ones: two different subsets y[a] + y[b]
     # must stay two terms, i.e. the identity of terms and variables must not lose the level (C02's R2.1, reported as R15.1)
